@@ -36,7 +36,7 @@ fn run(ctx: &RunCtx) -> Report {
     let mut plan = random_plan(&mut rng, 16, 4);
     plan.servers = rng.usize(3, 16);
     // 1 run in 8: enough servers for full buckets (one virtual hour only, to bound the cost)
-    let big = rng.chance(1, 8);
+    let big = rng.chance(1, if ctx.tier == Tier::Quick { 16 } else { 8 });
     if big {
         plan.servers = rng.usize(42, 60);
         plan.clients = 0;
@@ -49,14 +49,15 @@ fn run(ctx: &RunCtx) -> Report {
     let tau: Rc<RefCell<u64>> = Rc::new(RefCell::new(500 * MS));
     let hub_alive: Rc<RefCell<bool>> = Rc::new(RefCell::new(true));
     // nodes currently cut off from everybody by a partition
-    let isolated: Rc<RefCell<BTreeSet<HostId>>> = Default::default();
+    // (a multiset: a partition and a suspension of one node may overlap)
+    let isolated: Rc<RefCell<BTreeMap<HostId, u32>>> = Default::default();
     {
         let (es, we, tau, hub_alive, isolated) = (empty_since.clone(), worst_empty.clone(), tau.clone(), hub_alive.clone(), isolated.clone());
         sim.set_observer(Box::new(move |h, now, s| {
             let mut t = tau.borrow_mut();
             *t = (*t).max(s.socket.request_timeout_ns);
             let mut es = es.borrow_mut();
-            if s.routing_table.size == 0 && !s.bootstrap.is_empty() && *hub_alive.borrow() && !isolated.borrow().contains(&h) {
+            if s.routing_table.size == 0 && !s.bootstrap.is_empty() && *hub_alive.borrow() && !isolated.borrow().contains_key(&h) {
                 let since = *es.entry(h).or_insert(now);
                 let mut we = we.borrow_mut();
                 let e = we.entry(h).or_insert((0, 0));
@@ -135,14 +136,22 @@ fn run(ctx: &RunCtx) -> Report {
                 sim.block(vip, *ip);
                 sim.block(*ip, vip);
             }
-            i1.borrow_mut().insert(victim);
+            *i1.borrow_mut().entry(victim).or_insert(0) += 1;
         });
         sim.at(heal, move |sim| {
             for ip in &o2 {
                 sim.unblock(vip, *ip);
                 sim.unblock(*ip, vip);
             }
-            i2.borrow_mut().remove(&victim);
+            {
+                let mut m = i2.borrow_mut();
+                if let Some(c) = m.get_mut(&victim) {
+                    *c -= 1;
+                    if *c == 0 {
+                        m.remove(&victim);
+                    }
+                }
+            }
         });
         report.probe("partitions_planned", 1);
         partition_windows.push((at, heal));
@@ -156,15 +165,26 @@ fn run(ctx: &RunCtx) -> Report {
             let d = rng.range(60, 2400) * SEC;
             plan_lines.push(format!("suspend {} at t={}s for {}s", sim.node_addr(victim), at / SEC, d / SEC));
             let (i1, i2) = (isolated.clone(), isolated.clone());
+            let did = Rc::new(std::cell::Cell::new(false));
+            let did2 = did.clone();
             sim.at(at, move |sim| {
                 if sim.alive(victim) {
                     sim.stall(victim, d);
-                    i1.borrow_mut().insert(victim);
+                    *i1.borrow_mut().entry(victim).or_insert(0) += 1;
+                    did.set(true);
                 }
             });
             // it needs a moment after resuming to work through its backlog and re-bootstrap
             sim.at(at + d + 20 * SEC, move |_sim| {
-                i2.borrow_mut().remove(&victim);
+                if did2.get() {
+                let mut m = i2.borrow_mut();
+                if let Some(c) = m.get_mut(&victim) {
+                    *c -= 1;
+                    if *c == 0 {
+                        m.remove(&victim);
+                    }
+                }
+            }
             });
             partition_windows.push((at, at + d));
             suspend_windows.push((victim, at, at + d));
@@ -485,11 +505,11 @@ pub fn property() -> Property {
         id: "C14",
         run,
         budget: |t| match t {
-            Tier::Quick => 320,
+            Tier::Quick => 240,
             Tier::Thorough => 20_000,
         },
         wall_cap_s: |t| match t {
-            Tier::Quick => 80.0,
+            Tier::Quick => 100.0,
             Tier::Thorough => 1700.0,
         },
         info: || PropInfo {
